@@ -8,6 +8,7 @@
 package modset
 
 import (
+	"sort"
 	"fmt"
 	"strings"
 
@@ -699,6 +700,7 @@ func generate(r *kit.Rng, maxStmts int) *Set {
 	// module's is not something YANG defines; Expect[""] covers the main file,
 	// ExpectSub the submodule files)
 	var subRoots [][]*node
+	var subFeats []string
 	// with two submodules both included by the main module, each may augment one
 	// top-level container of the main module: the children they add keep the order
 	// of the include statements
@@ -710,13 +712,22 @@ func generate(r *kit.Rng, maxStmts int) *Set {
 	for i := 1; i <= nSub; i++ {
 		var b strings.Builder
 		fmt.Fprintf(&b, "submodule s%d {\n  belongs-to m { prefix m; }\n", i)
-		for _, n := range impNames {
-			fmt.Fprintf(&b, "  import %s { prefix %s; }\n", n, n)
+		var dated []string
+		for ni, n := range impNames {
+			if r.Chance(1, 3) {
+				dated = append(dated, n)
+				// the same module, here with the revision it has: still one module, loaded once
+				fmt.Fprintf(&b, "  import %s { prefix %s; revision-date 2024-01-0%d; }\n", n, n, ni+1)
+			} else {
+				fmt.Fprintf(&b, "  import %s { prefix %s; }\n", n, n)
+			}
 		}
 		if nested && i == 1 {
 			b.WriteString("  include s2;\n")
 		}
-		fmt.Fprintf(&b, "  typedef %s { type string; }\n  identity %s;\n  feature %s;\n", g.id("t"), g.id("id"), g.id("ft"))
+		subFeat := g.id("ft")
+		subFeats = append(subFeats, subFeat)
+		fmt.Fprintf(&b, "  typedef %s { type string; }\n  identity %s;\n  feature %s;\n", g.id("t"), g.id("id"), subFeat)
 		saveT := g.tdefs
 		if nested && i == 2 {
 			// a submodule reached only through another submodule's include does not
@@ -732,6 +743,16 @@ func generate(r *kit.Rng, maxStmts int) *Set {
 		saveF := g.feats
 		g.feats = nil // features of the main module are referenced from the main module only
 		body := g.body(1, false)
+		// what this file sees through an import that names a revision is the module everybody else sees
+		for _, n := range dated {
+			for _, id := range g.ids {
+				if strings.HasPrefix(id, n+":") {
+					g.n++
+					body = append(body, &stmt{kind: "leaf", name: g.id("f"), typ: "identityref { base " + id + "; }"})
+					break
+				}
+			}
+		}
 		g.feats = saveF
 		g.tdefs = saveT
 		emit(&b, 1, body)
@@ -797,6 +818,10 @@ func generate(r *kit.Rng, maxStmts int) *Set {
 	for _, x := range notifs {
 		record(set, x.name, g.expand(x.body))
 	}
+	// the features of the module are the ones it and its submodules declare - not those of the modules it imports
+	allFeats := append(append([]string(nil), g.feats...), subFeats...)
+	sort.Strings(allFeats)
+	g.facts["features:m"] = allFeats
 	set.Stmts = g.n
 	set.Feats = g.feats
 	set.Lists = g.facts
